@@ -263,7 +263,10 @@ def check_deadline_loop(c, repo, f, read, expire_call):
     inloop = any(p is loop for p in parent_chain(en.ast))
     c.check(not inloop, f, en.ast, 'the deadline is computed before the loop (not pushed forward by every iteration)',
             witness='assignment sits inside the while loop' if inloop else None, kind='ast', tag='deadline-outside')
-    others = [n for n in g.nodes if n.kind == 'stmt' and ev in assigned_names(n.ast) and n is not en]
+    # (a placeholder `end_time = None` for the no-timeout case, outside the loop, does not move anything)
+    others = [n for n in g.nodes if n.kind == 'stmt' and ev in assigned_names(n.ast) and n is not en and
+              not (isinstance(n.ast, ast.Assign) and is_const(n.ast.value, None) and not any(p is loop for p in parent_chain(n.ast))
+                   and ('%s is None' % var, True) in conditions(g, n))]
     c.check(not others, f, others[0].ast if others else None, 'the deadline is never moved afterwards', kind='ast', tag='deadline-fixed')
     # recompute
     rec = [n for n in g.nodes if n.kind == 'stmt' and isinstance(n.ast, ast.Assign) and var in assigned_names(n.ast)
@@ -583,12 +586,22 @@ def check_pty_polls(c, repo):
     gw = w.cfg
     te = [t for t in gw.nodes if t.kind == 'test' and any(callee_last(k) == 'getecho' for k in calls_in(t.ast))]
     c.need(len(te) == 1, 'waitnoecho: echo test not found')
-    edge = 'true' if norm(te[0].ast).startswith('not ') else 'false'
-    nx = [s2 for s2, l2 in te[0].succ if l2 == edge]
-    c.check(norm(te[0].ast) in ('not self.getecho()', 'self.getecho()') and len(nx) == 1 and nx[0].kind == 'stmt' and isinstance(nx[0].ast, ast.Return)
-            and is_const(nx[0].ast.value, True), w, te[0].ast, 'waitnoecho returns True exactly when the echo flag is found off', witness=norm(te[0].ast), kind='path', tag='noecho-true')
-    loops = [n for n in iter_nodes(w.node) if isinstance(n, ast.While)]
-    c.check(len(loops) == 1 and is_const(loops[0].test, True), w, loops[0] if loops else None, 'it keeps polling until one of the two outcomes', kind='ast', tag='noecho-loop')
+    co, lab = truth(te[0].ast)
+    off = other(lab)             # the outcome on which the echo flag is OFF
+    rt = set(r for r in returns(w) if is_const(r.ast.value, True))
+    nx = [s2 for s2, l2 in te[0].succ if l2 == off]
+    busy = set(n for n in gw.nodes if n.ast is not None and n is not te[0] and any(callee_last(k) in ('sleep', 'getecho') for k in node_calls(n)))
+    others_ = set(r for r in returns(w) if r not in rt) | set(raises(w)) | {gw.exit}
+    ok = norm(co) == 'self.getecho()' and bool(rt) and len(nx) == 1 and \
+        (nx[0] in rt or gw.path(nx[0], busy | others_, avoid=rt, skip_labels=('exc',)) is None) and \
+        gw.must_pass(gw.entry, rt, set(), skip_labels=('exc',), through_edges={(te[0], off)})[0]
+    c.check(ok, w, te[0].ast, 'waitnoecho returns True exactly when the echo flag is found off', witness=norm(te[0].ast), kind='path', tag='noecho-true')
+    # it keeps polling until one of the two outcomes: from the echo-on outcome the only ways on are `return False` or another echo test
+    on = [s2 for s2, l2 in te[0].succ if l2 == lab]
+    rf = set(r for r in returns(w) if is_const(r.ast.value, False))
+    okl = len(on) == 1 and gw.path(on[0], (set(returns(w)) - rf) | set(raises(w)) | {gw.exit}, avoid={te[0]} | rf, skip_labels=('exc',)) is None \
+        and gw.path(on[0], {te[0]}, skip_labels=('exc',)) is not None
+    c.check(okl, w, te[0].ast, 'it keeps polling until one of the two outcomes', kind='path', tag='noecho-loop')
 
 
 # ------------------------------------------------------------------ D6 / D7
